@@ -18,7 +18,7 @@ SIG_D9 = "sentinel-lost-between-adjacent-references"
 SIG_D9B = "reference-followed-by-dollar"
 TEXT = list("abcXYZ019") + [" ", " ", ",", ";", ":", "-", "_", "=", "(", ")", "!", "?", "/", "|", "+", "%", "&", "<", ">", "'", "#", "@", "*", "^", "{", "}", ".", "~"]
 TERMINATORS = [" ", ",", ";", ":", "-", "(", ")", "!", "?", "/", "|", "+", "%", "&", "<", ">", "#", "@", "^", "{", "}"]
-REFS = [("headers", "a", None), ("headers", "b", None), ("headers", "2", None), ("headers", "zz", None), ("variables", "x", None), ("variables", "n", None),
+REFS = [("headers", "a", None), ("headers", "b", None), ("headers", "2", None), ("headers", "0", None), ("headers", "zz", None), ("variables", "x", None), ("variables", "n", None),
         ("variables", "t", "k"), ("variables", "st", "0"), ("variables", "st", "length"), ("variables", "nope", None), ("metadata", "note", None), ("metadata", "id", None),
         ("csvpath", "line_number", None), ("csvpath", "count_lines", None), ("csvpath", "count_scans", None), ("csvpath", "count_matches", None), ("csvpath", "identity", None)]
 TYPES = {"variables": "TVariables", "headers": "THeaders", "metadata": "TMetadata", "csvpath": "TCsvpath"}
@@ -62,9 +62,16 @@ def chunk_lit(c):
 
 
 def gen_rows(rng):
-    rows = [["id", "a", "b", "c"]]
+    # half of the files have two more columns whose NAMES are digits ("2", "0"): $.headers.2 is then the column named "2", not the third column
+    wide = rng.random() < 0.5
+    rows = [["id", "a", "b", "c"] + (["2", "0"] if wide else [])]
     for i in range(1, rng.choice([2, 3, 4, 5])):
-        rows.append([f"r{i}", rng.choice(CELLS), rng.choice(CELLS), rng.choice(CELLS)][: rng.choice([2, 3, 4, 4, 4])])
+        row = [f"r{i}", rng.choice(CELLS), rng.choice(CELLS), rng.choice(CELLS)]
+        if wide:
+            row += [rng.choice(["n2", "two", "", "9"]), rng.choice(["n0", "zero", "5"])]
+            rows.append(row[: rng.choice([2, 4, 5, 6, 6, 6])])
+        else:
+            rows.append(row[: rng.choice([2, 3, 4, 4, 4])])
     return rows
 
 
